@@ -1,5 +1,8 @@
 """C12 — A copy is equivalent to its original and shares nothing with it."""
 from contracts import misc_small  # noqa
+from contracts import c12_rxn_arith as ARITH
+from contracts import c12_model_copy as MCOPY
+from contracts import w_tolerance as WT
 from props._generic import run_property, replay_with_driver
 
 LEVEL = "other"
@@ -7,7 +10,11 @@ KEYS = ["Reaction.copy", "Model.__setstate__", "Reaction.update_variable_bounds"
 
 
 def run(rep):
-    run_property(rep, KEYS, explanation=(
+    run_property(rep, KEYS, more=list(ARITH.GROUPS) + [(MCOPY.KEYS, MCOPY.HOOKS), (WT.KEYS, WT.HOOKS)], lemmas=lambda: ARITH.lemmas() + MCOPY.lemmas(), explanation=(
+        "The Model.tolerance setter (an assumed contract until round 5) is proved against its body: every optlang tolerance "
+        "(feasibility, optimality, integrality) the interface supports is set to the value on the tolerances object of this "
+        "model's solver configuration, an unsupported one is left alone (AttributeError swallowed), self._tolerance is set on every "
+        "path, nothing else is written; Model.__setstate__ uses that proved contract at its call site. "
         "Deductive part: Reaction.copy is proved (two loop invariants over the recorded (member, model) pairs, built from the "
         "reaction's metabolites and genes in any iteration order) to return a different, detached object and to leave EVERY model "
         "pointer of the operand, its metabolites and its genes as found on normal return - also for a reaction that has been removed "
@@ -16,11 +23,31 @@ def run(rep):
         "every reaction, gene, metabolite and group of the restored lists at the restored model (loop invariants; groups were "
         "missing before d50da1c) and, when a solver came with the state, to leave every reaction's solver variables encoding its "
         "bounds (range lemma of C01 re-established by update_variable_bounds for each reaction; infinite bounds did not survive "
-        "before fdf97f9), given distinct solver variables per reaction. Model.copy iterates over __dict__ of arbitrary objects and relies on "
-        "copy/deepcopy and the solver's own deep copy; its separation property is not within the verifier's reach: bounded driver "
+        "before fdf97f9), given distinct solver variables per reaction. Model.copy (contracts/c12_model_copy.py) is proved over its real "
+        "source for models of ANY size (8 loop invariants; the attribute loops over obj.__dict__ are unrolled over the attribute names "
+        "derived mechanically, on every run, from the `self.<name> = ...` assignments of the __init__ methods - ASSUMPTION: instances "
+        "have no other attributes) as a SEPARATION post-condition over allocation stamps: the copy's four DictLists, context stack and "
+        "compartment dictionary are new objects; every member of the four lists is an object allocated during the call, with the same "
+        "identifier at the same index (lists well formed), pointing at the new model; notes / annotation of every member and of the "
+        "model and the rule object of every reaction are objects allocated during the call (deep copies / a copy with the same gene "
+        "names), all scalar attributes carry the original's value; a reaction of the copy has exactly the copy's metabolites standing "
+        "for the original's keys, with the same coefficients, and the copy's genes standing for the original's genes; the `_reaction` "
+        "sets of the copy's metabolites and genes list exactly the copy's reactions; group members are the copy's objects of the same "
+        "class and identifier; NO field of an object that existed at entry is written, the original model object and its lists are "
+        "untouched; the copy's context stack is empty and was never the original's while update_genes_from_gpr ran (e389e4c); the "
+        "solver is a deep copy, the tolerance is set once through the setter on the model that already holds it (e3eb7c0), and the "
+        "solver variables of every reaction of the copy encode its bounds (fdf97f9). Stated precondition: the original's lists are "
+        "well formed, its reactions' metabolites / genes and its groups' members are members of its lists (C02 invariant), genes of a "
+        "reaction = the model's genes named by its rule, valid bounds, no exception from deepcopy(solver) (Cplex fallback not covered). "
+        "FINDING outside that assumption (reported in the module docstring with its native reproduction, not absorbed): a model read from "
+        "SBML carries the additional attribute `_sbml`, which Model.copy shares by reference with the original. "
+        "What stays with the bounded driver: that a deep copy has the CONTENT of its source and the optimum of the copied solver "
         "(snapshot equality of copy/deepcopy/pickle incl. the solver problem, then every edit and depth-2 edit sequence incl. in-place "
         "edits of notes/annotations applied to one side with the other side compared, reaction arithmetic operands unchanged)."),
-        trusted=["copy.copy / copy.deepcopy / pickle (assumed)", "Model.tolerance setter touches only the solver configuration (assumed contract)", "an exception inside deepcopy would leave the pointers cleared "
+        trusted=["copy.copy / copy.deepcopy / pickle (assumed)", "Model.copy: allocation by the constructors Model() / Metabolite() / Gene(None) / Reaction() / Group(id), "
+                 "copy() and deepcopy() returns a NEW object (assumed contracts); set-valued fields are modelled by value; "
+                 "(Reaction.update_genes_from_gpr and Group.add_members: their contracts proved under C02 are applied at the call sites, "
+                 "call-site lemmas obliged); a copy of a rule object has the same gene names", "optlang: solver.configuration.tolerances is a function of the solver object; assigning a tolerance attribute stores the value there or raises AttributeError with nothing written (ghost predicate tol_supported); logger / interface_to_str opaque", "an exception inside deepcopy would leave the pointers cleared "
                  "(no try/finally in Reaction.copy): outside the contract's normal-return case"])
 
 
